@@ -47,7 +47,7 @@ pub struct Event {
 #[derive(Clone, Debug)]
 pub enum Ev {
 	Boot { n: u32 },
-	BootOk { n: u32 },
+	BootOk { n: u32, pairs: Vec<Rc<super::snap::PairSnap>> },
 	BootErr { n: u32, msg: String },
 	Stopped { why: String },
 	AttemptBegin { cert: String, snap: Rc<super::snap::PairSnap> },
